@@ -448,6 +448,17 @@ def t_spec(t):
                         _, _, res, resids, error = greedy_from_json(copy.deepcopy(spec))
                     e["greedy"] = {"ids": list(resids) if resids is not None else None, "error": error,
                                    "res": [str(x) for x in res] if res is not None else None}
+                    if resids is not None and error == 0:
+                        # the tool's own rendering of the identifiers (what is spliced into the contract)
+                        try:
+                            from solution_generation.ids2asm import asm_from_ids
+                            with impl.quiet():
+                                asm = asm_from_ids(copy.deepcopy(spec), list(resids))
+                            e["greedy"]["asm_tokens"] = " ".join(vocab.token(i.disasm, i.value) for i in asm)
+                        except vocab.Unsupported as ex:
+                            e["greedy"]["asm_unsupported"] = str(ex)
+                        except Exception as ex:
+                            e["greedy"]["asm_exception"] = "%s: %s" % (type(ex).__name__, ex)
                 except Exception as ex:
                     e["greedy"] = {"exception": "%s: %s" % (type(ex).__name__, ex)}
             r["subs"].append(e)
